@@ -19,7 +19,8 @@ from pyfront import shimmed
 PROP = 'C13'
 ALL = ['ber', 'der', 'per', 'uper', 'oer', 'jer', 'xer', 'gser']
 TEMPLATES = ['combo-bits-default', 'combo-components-of', 'combo-ext-implied', 'combo-import',
-             'enum-ext', 'c13-enum-default', 'defaults-by-ref-small', 'components-of-chain']
+             'enum-ext', 'c13-enum-default', 'defaults-by-ref-small', 'components-of-chain',
+             'two-modules-same-name-choice', 'two-modules-same-name-seq']
 MORE = ['seq-opt', 'combo-uper6', 'combo-ref', 'combo-default-shared', 'tag-app', 'combo-recursive', 'seq-ext-group', 'set-tags',
         'combo-set-choice', 'int-named']
 
